@@ -1239,6 +1239,13 @@ def arr_method(it, a, name, args, kwargs, node):
             return a.get(*args)
         if all(is_concrete(x) for x in args) and is_concrete(a):
             return getattr(a, name)(*args, **kwargs)
+        if isinstance(a, dict) and name == "pop" and args and is_concrete(args[0]):
+            # concrete key, values of any kind
+            if args[0] in a:
+                return a.pop(args[0])
+            if len(args) > 1:
+                return args[1]
+            raise _Raise("KeyError")
         if name == "format" and isinstance(a, str):
             it.assumptions_log.add("strings formatted from symbolic values are represented by their templates (only their emptiness is used)")
             return a
